@@ -132,7 +132,9 @@ def build(rnd, tier, flags):
             pre = lines[i][:len(lines[i]) - len(st.src)]
             tag = "+intent" if (st.kind in ("type_decl", "attr") and ("intent(" in st.src)) else ""
             edits.append(["paren:" + st.kind + tag, "rep", i, pre + new, d, bool(st.label or st.cname)])
-    case = {"lines": lines, "edits": edits, "std": std, "meta": meta}
+    case = {"lines": lines, "edits": edits, "std": std, "meta": meta,
+            "reader_opts": r.pick([{}, {}, {"ignore_comments": False}, {"ignore_comments": False, "process_directives": True},
+                                   {"process_directives": True}])}
     ex = progs.excluded_counts(g)
     ex.update(excl)
     return case, ex
@@ -149,15 +151,16 @@ def apply_edit(lines, e):
 
 def evaluate(case):
     lines, std = case["lines"], case["std"]
-    labels = ["std=" + std]
-    o = guarded_parse("\n".join(lines) + "\n", std=std)
+    opts = dict(case.get("reader_opts") or {})
+    labels = ["std=" + std] + ["opt:%s=%s" % kv for kv in sorted(opts.items())]
+    o = guarded_parse("\n".join(lines) + "\n", std=std, **opts)
     if o.kind != "tree":
         return Result(True, None, False, labels, precondition_failed=True)
     nontrivial = any(e[4] >= 2 or e[5] for e in case["edits"])
     for e in case["edits"]:
         _edits[0] += 1
         new = apply_edit(lines, e)
-        o2 = guarded_parse("\n".join(new) + "\n", std=std, want_str=True)
+        o2 = guarded_parse("\n".join(new) + "\n", std=std, want_str=True, **opts)
         if o2.kind == "exit":
             _exits[0] += 1
             continue
